@@ -8,6 +8,7 @@ import (
 	"fmt"
 	"math/big"
 	"reflect"
+	"runtime"
 	"sort"
 	"sync"
 	"testing/synctest"
@@ -906,4 +907,141 @@ func findLocks(cs *spebble.ContentStorage) []lockProbe {
 		}
 	}
 	return out
+}
+
+// ---------- exhaustive crash-point enumeration of short histories (C17) ----------
+
+func init() { engines["store-crashall"] = runStoreCrashAll }
+
+// genCrashAll: a short history that brings the store near capacity, crosses it (prune) and
+// continues; every FS operation index of it is then used as a crash point in every mode.
+func genCrashAll(r *prng) *plan {
+	p := &plan{Class: "crash-enumeration", Cfg: map[string]int64{}}
+	p.Cfg["node"] = int64(r.intn(4))
+	p.Cfg["memtable"] = int64(16+r.intn(100)) << 10
+	p.Cfg["cache"] = int64(8+r.intn(56)) << 10
+	p.Cfg["nids"] = int64(6 + r.intn(10))
+	p.Cfg["idflavour"] = int64(r.intn(3))
+	p.Cfg["sched"] = 1
+	p.Cfg["stride"] = 1
+	// pre-fill close to the capacity with one large item, then a few small puts that cross it
+	p.Ops = append(p.Ops, opSpec{K: "put", N: []int64{0, int64(880_000 + r.intn(60_000)), int64(r.u64() >> 1)}})
+	n := 3 + r.intn(5)
+	for i := 0; i < n; i++ {
+		p.Ops = append(p.Ops, opSpec{K: "put", N: []int64{int64(1 + r.intn(int(p.Cfg["nids"])-1)), int64(5_000 + r.intn(44_000)), int64(r.u64() >> 1)}})
+	}
+	return p
+}
+
+func runStoreCrashAll(seed uint64) {
+	p := loadOrGenPlan("store-crashall", seed, genCrashAll)
+	w := newWorld(seed, "C17", "store-crashall")
+	w.res.Class = "crash-enumeration"
+	stride := int(p.cfg("stride"))
+	if stride < 1 {
+		stride = 1
+	}
+	// dry run: how many FS operations does the history perform?
+	total := func() int {
+		s := newStoreSimFor(w, p, seed)
+		for i, op := range p.Ops {
+			s.opIdx = i
+			if op.K == "put" {
+				s.doPut(op)
+			}
+		}
+		n := s.disk.ops
+		s.closeDB()
+		return n
+	}()
+	w.res.Probes["fs_ops_in_history"] = total
+	points := 0
+	for k := 1; k <= total; k += stride {
+		for mi, mode := range crashModes {
+			s := newStoreSimFor(w, p, seed)
+			s.disk.crashAt = k
+			s.crashMode = mode
+			s.crashSeed = seed*31 + uint64(k*4+mi)
+			crashed := false
+			for i, op := range p.Ops {
+				s.opIdx = i
+				if op.K == "put" {
+					s.doPut(op)
+				}
+				if s.disk.image != nil {
+					s.doCrashRestart()
+					crashed = true
+					break
+				}
+			}
+			if !crashed {
+				s.closeDB()
+				continue
+			}
+			points++
+			if points%8 == 0 {
+				runtime.GC() // the collector is off during runs; abandoned databases pile up otherwise
+			}
+			// the restarted store must keep working: two more puts and a get under the usual oracle
+			s.opIdx = 1000
+			s.doPut(opSpec{K: "put", N: []int64{int64(k % len(s.ids)), 20_000, int64(seed) + int64(k)}})
+			s.doGet(opSpec{K: "get", N: []int64{int64(k % len(s.ids))}})
+			s.closeDB()
+			stop := false
+			for _, v := range w.res.Violations {
+				if v.Property != "C06" { // the recorded radius byte-order finding must not end the enumeration
+					stop = true
+				}
+			}
+			if stop {
+				w.res.Ops = append(w.res.Ops, fmt.Sprintf("crash point %d of %d mode %s", k, total, mode))
+				w.res.Probes["crash_points_enumerated"] = points
+				w.res.Nontrivial = true
+				w.finish()
+			}
+		}
+	}
+	w.res.Probes["crash_points_enumerated"] = points
+	w.op("history of %d puts performs %d FS operations; %d (operation, mode) crash points enumerated", len(p.Ops), total, points)
+	w.abstract("crashall ops=%d total=%d", len(p.Ops), total/10)
+	w.res.Nontrivial = points > 0
+	w.finish()
+}
+
+// newStoreSimFor builds a fresh store on a fresh disk for the plan (same ids for the same seed).
+func newStoreSimFor(w *world, p *plan, seed uint64) *storeSim {
+	s := &storeSim{w: w, p: p, model: map[[32]byte][]byte{}, ever: map[[32]byte][][]byte{}, tasks: map[uint64]*ytask{}}
+	r := newPrng(seed ^ 0x5151)
+	switch p.cfg("node") {
+	case 0:
+		copy(s.nodeID[:], r.bytes(32))
+	case 1:
+	case 2:
+		for i := range s.nodeID {
+			s.nodeID[i] = 0xff
+		}
+	default:
+		copy(s.nodeID[:], r.bytes(32))
+		s.nodeID[0] = 0x80
+	}
+	nids := int(p.cfg("nids"))
+	for i := 0; i < nids; i++ {
+		var d [32]byte
+		copy(d[:], r.bytes(32))
+		if i == 0 {
+			d = [32]byte{}
+			d[31] = 1
+		}
+		var id [32]byte
+		for k := range id {
+			id[k] = d[k] ^ s.nodeID[k]
+		}
+		s.ids = append(s.ids, id)
+	}
+	spebble.VerifYield = func(string) {}
+	s.disk = newSimDisk()
+	if !s.open(true) {
+		w.finish()
+	}
+	return s
 }
